@@ -285,8 +285,9 @@ def oracle(line, out):
         o = out.split(" ")
         if o[-1].startswith("x=") and o[-1] != "x=ok":
             return "HPACK decode: lshpack and nghttp2 decode the same block differently (%s)" % o[-1]
-        if line in MUST_FAIL and not any(x.startswith("e-") for x in o):
-            return "HPACK decode: a block that ends inside a header field (value string missing) was accepted"
+        if line in MUST_FAIL and not any(x.startswith("e-") or x.startswith("d!") for x in o):
+            return "HPACK decode: a block that cannot be decoded to its end (field cut short / larger than the " \
+                   "decoding buffer) did not end the connection"
         exp = EXPECT.get(line)
         if exp is not None:
             ops = t[2:]
@@ -360,7 +361,7 @@ def resp_expected(status, es, ops, srvtag):
         if lk == b"x-sendfile" or lk.startswith(b"x-lighttpd-"):
             continue
         fields += [(lk, v) for v in vals]
-    if alen > 65535:
+    if alen + 37 + (17 if srvtag else 0) > 65535:      # date and server are part of the size check
         return None
     if not tag.get(b"date"):
         fields.append((b"date", b"AUTO"))
@@ -718,6 +719,13 @@ def corrupt_lines(ctx, valid_lines):
                  "connx 65535 B400161016200016310"):
         MUST_FAIL.add(line)
         L.append(line)
+    # regression: a legal field larger than the 64 KiB decoding buffer inside a DISCARDED block must end the
+    # connection (it used to be skipped silently, the rest of the block with it)
+    big = oversize_field(rng, False)
+    for line in ("connx 65535 B4003782d650130 D%s4003782d610131 Bbe" % C.hx(big),
+                 "connx 65535 D%s Bbe" % C.hx(b"\x40\x03x-e\x010" + oversize_field(rng, True))):
+        MUST_FAIL.add(line)
+        L.append(line)
     # the documented deviations of lshpack_dec_decode (theorems c07_deviation_*), replayed against the C
     L += ["connx 65535 B3fe11f", "connx 65535 B8220", "connx 65535 B7f80808000", "connx 65535 B400161016220be"]
     # purely random short blocks on a fresh connection and after one valid block
@@ -853,13 +861,55 @@ def make_invalid(rng, hdrs):
 def split_frags(rng, blk):
     n = rng.choice([1, 1, 1, 2, 3, 4])
     if n == 1 or len(blk) < 2:
-        return [blk]
-    cuts = sorted(rng.randint(0, len(blk)) for _ in range(n - 1))
-    parts, prev = [], 0
-    for c in cuts + [len(blk)]:
-        parts.append(blk[prev:c])
-        prev = c
-    return parts
+        parts = [blk]
+    else:
+        cuts = sorted(rng.randint(0, len(blk)) for _ in range(n - 1))
+        parts, prev = [], 0
+        for c in cuts + [len(blk)]:
+            parts.append(blk[prev:c])
+            prev = c
+    out = []                                  # no frame above SETTINGS_MAX_FRAME_SIZE (16384)
+    for f in parts:
+        while len(f) > 16000:
+            k = rng.randint(8000, 16000)
+            out.append(f[:k])
+            f = f[k:]
+        out.append(f)
+    return out
+
+
+HUFF5 = {c: i for i, c in enumerate(b"012aceiost")}     # the ten 5-bit codes of RFC 7541 Appendix B
+
+
+def py_huff5(s):
+    """Huffman coding of a string over the ten 5-bit symbols (enough to build legal fields whose
+    decoded size exceeds 64 KiB inside a header block below the 64 KiB CONTINUATION limit)"""
+    acc, nb, out = 0, 0, bytearray()
+    for c in s:
+        acc = (acc << 5) | HUFF5[c]
+        nb += 5
+        while nb >= 8:
+            nb -= 8
+            out.append((acc >> nb) & 0xff)
+    if nb:
+        out.append(((acc << (8 - nb)) | ((1 << (8 - nb)) - 1)) & 0xff)
+    return bytes(out)
+
+
+BIG_POOL = []
+
+
+def oversize_field(rng, in_name):
+    """literal field without indexing whose value (or name) decodes to more than 65535 octets:
+    valid HPACK, LSHPACK_ERR_MORE_BUF in lighttpd"""
+    if not BIG_POOL:
+        for n in (65536, 65537, 66000, 70000, rng.randint(65536, 70000)):
+            BIG_POOL.append(py_huff5(bytes(rng.choice(b"012aceiost") for _ in range(n))))
+    big = rng.choice(BIG_POOL)
+    small = rng.choice([b"x-big", b"x-o"])
+    if in_name:
+        return b"\x00" + py_enc_int(7, 0x80, len(big)) + big + py_enc_str(b"1")
+    return b"\x00" + py_enc_str(small) + py_enc_int(7, 0x80, len(big)) + big
 
 
 REQ_EXPECT = {}     # line -> ({item index: expected view}, [expected outcome tokens])
@@ -867,11 +917,12 @@ REQ_EXPECT = {}     # line -> ({item index: expected view}, [expected outcome to
 
 class PyGlue:
     """independent statement of what h2_recv_headers() must do with a HEADERS sequence, as far as the
-    HPACK state is concerned: decode it (serve / trailers / discard), postpone it, or kill the connection"""
+    HPACK state is concerned: decode it (serve / trailers / discard), postpone it, or kill the connection.
+    `err` = GOAWAY code an HPACK decoding error inside the block must produce (None = block decodes)"""
 
     def __init__(self):
         self.cid = 0
-        self.kept = {}            # id -> [is_open, errored]
+        self.kept = {}            # id -> [is_open, errored, announced body still missing]
         self.acked = False
         self.goaway = 0
         self.ndisc = 0
@@ -885,14 +936,16 @@ class PyGlue:
             for v in self.kept.values():
                 v[0], v[1] = False, True
 
-    def _discard(self):
+    def _discard(self, err):
         if self.goaway > 0:
             return
         self.ndisc += 1
         if self.ndisc > 32:
             self._goaway(11)
+        if err:
+            self._goaway(err)         # a discarded block is decoded like any other: error = connection error
 
-    def headers(self, sid, es, dep, keep, block_ok):
+    def headers(self, sid, es, dep, keep, err):
         """-> (outcome token without markers, decoded?)"""
         if sid % 2 == 0 or (dep == sid and sid > self.cid):
             self._goaway(1)
@@ -904,18 +957,18 @@ class PyGlue:
                 return "none", False
             if not st[0]:
                 st[0], st[1] = False, True
-                self._discard()
+                self._discard(err)
                 return "disc:%d:5" % sid, True
-            if not es:
+            if not es or st[2]:
                 st[0], st[1] = False, True
-                self._discard()
+                self._discard(err)
                 return "disc:%d:1" % sid, True
             st[0] = False
-            if not block_ok:
-                self._goaway(9)
+            if err:
+                self._goaway(err)
             return "trl:%d" % sid, True
         if self.goaway:
-            self._discard()
+            self._discard(err)
             return "disc:%d:-" % sid, True
         if len(self.kept) == 8:
             if any(v[1] for v in self.kept.values()):
@@ -929,14 +982,14 @@ class PyGlue:
             self.nrefused += 1
             if self.nrefused > 16:
                 self._goaway(-1)
-            self._discard()
+            self._discard(err)
             return "disc:%d:7" % sid, True
         self.cid = sid
-        if not block_ok:
-            self._goaway(9)
+        if err:
+            self._goaway(err)
             return "none", True
         if keep:
-            self.kept[sid] = [not es, False]
+            self.kept[sid] = [not es, False, keep == 2]
         return "new:%d" % sid, True
 
 
@@ -977,12 +1030,17 @@ def gen_req(ctx):
                 es = rng.random() < 0.85
                 hdrs = [(rng.choice([b"x-trailer", b"grpc-status", b"x-checksum"]), rand_req_value(rng, b"x"))
                         for _ in range(rng.randint(0, 3))]
-                keep, exp, bad, refuse = 0, None, False, None
+                keep, exp, bad, refuse = 0, None, rng.random() < 0.03, None
             else:
                 es = rng.random() < 0.75
                 hdrs, exp = rand_request(rng, es)
-                bad = rng.random() < 0.02
+                bad = rng.random() < 0.03
                 refuse = None
+                declared = (not es) and rng.random() < 0.3
+                if declared:
+                    # a body is announced and none of it sent: trailers on this stream are a stream error
+                    hdrs.append((b"content-length", b"5"))
+                    exp[3].append((b"content-length", b"5"))
                 if rng.random() < 0.10:
                     # a request the header parser refuses half way: the rest of the block is still decoded
                     hdrs, refuse = make_invalid(rng, hdrs)
@@ -995,8 +1053,10 @@ def gen_req(ctx):
                             refuse, exp = k, ("STATUS", "431")
                         break
                 if refuse is not None and rng.random() < 0.3:
-                    bad = True                   # garbage after the refusal point is not looked at
+                    bad = True                   # garbage after the refusal point is a decoding error all the same
                 keep = int((rng.random() < (0.9 if fill else 0.15)) and len(g.kept) < 8)
+                if declared:
+                    keep = 2 if (keep and refuse is None) else 0
                 sid = nid
                 nid += 2
                 if rng.random() < 0.01:
@@ -1006,9 +1066,17 @@ def gen_req(ctx):
             trial = copy.deepcopy(enc)
             trial.rng = rng
             blk = trial.block(hdrs)
+            err = None
             if bad:
-                blk += rng.choice([b"\xff\xff\xff\xff\xff\xff", b"\x80", b"\x3f\xff\xff\x7f\x82", b"\xff\x7f"])
-            tok, decoded = g.headers(sid, es, int(dep) if dep != "-" else None, keep, not bad or refuse is not None)
+                if rng.random() < (0.12 if ctx.quick else 0.04):
+                    # a legal field too large for lighttpd's 64 KiB decoding buffer (then more fields)
+                    in_name = rng.random() < 0.2
+                    blk += oversize_field(rng, in_name) + b"\x40\x01y\x01z"
+                    err = 9 if in_name else 1
+                else:
+                    blk += rng.choice([b"\xff\xff\xff\xff\xff\xff", b"\x80", b"\x3f\xff\xff\x7f\x82", b"\xff\x7f"])
+                    err = 9
+            tok, decoded = g.headers(sid, es, int(dep) if dep != "-" else None, keep, err)
             if decoded:
                 enc = trial                  # the peer's encoder state advances only with what lighttpd decodes
             if tok.startswith("new:") and exp is not None:
@@ -1018,9 +1086,8 @@ def gen_req(ctx):
             elif g.goaway < 0 and g0 == 0:
                 tok += "~"
             outs.append(tok)
-            items.append("%s%d/%d/%s/%s/%s/%d%s" % (rng.choice("HHh"), sid, es, pad, dep,
-                                                   "+".join(C.hx(f) for f in split_frags(rng, blk)), keep,
-                                                   "/%d" % refuse if refuse is not None else ""))
+            items.append("%s%d/%d/%s/%s/%s/%d" % (rng.choice("HHh"), sid, es, pad, dep,
+                                                 "+".join(C.hx(f) for f in split_frags(rng, blk)), keep))
         line = "req %d %s" % (maxfield, " ".join(items))
         REQ_EXPECT[line] = (expect, outs)
         L.append(line)
@@ -1097,16 +1164,55 @@ def rand_resp_value(rng):
     return bytes(rng.choice(b"abcdefghij") for _ in range(rng.randint(9000, 30000)))
 
 
+INCOMPRESSIBLE = b"<>{}`^~|\\#$@[]"          # Huffman codes of 11..19 bits: lshpack sends these raw
+
+
+def near_limit_response(rng, srvtag):
+    """one response whose expanded header size lands within a few octets of the 65535 limit, with values
+    HPACK cannot shrink: the encoded block is then larger than the size that was checked"""
+    overhead = 14 + 37 + (17 if srvtag else 0)
+    ops, total = [], overhead
+    for k in [b"X-Pre", b"ETag"][:rng.randint(0, 2)]:
+        v = bytes(rng.choice(b"abc123") for _ in range(rng.randint(1, 20)))
+        ops.append(("s", k, v))
+        total += len(k) + len(v) + 4
+    tail = [(b"X-B", b"2")] if rng.random() < 0.7 else []
+    for k, v in tail:
+        total += len(k) + len(v) + 4
+    nbig = rng.choice([1, 1, 2, 3])
+    target = 65535 + rng.choice([-70, -40, -12, -5, -2, -1, 0, 0, 1, 2, 9, 30])
+    room = target - total
+    for i in range(nbig):
+        k = b"X-Big%d" % i
+        share = room // (nbig - i) if i < nbig - 1 else room
+        vlen = max(1, share - len(k) - 4)
+        alpha = INCOMPRESSIBLE if rng.random() < 0.8 else bytes(range(0x80, 0x100))
+        ops.append((rng.choice("ss"), k, bytes(rng.choice(alpha) for _ in range(vlen))))
+        room -= len(k) + vlen + 4
+    ops += [("s", k, v) for k, v in tail]
+    return "R%d/%d/%s" % (rng.choice([200, 404, 302]), rng.random() < 0.5,
+                          ",".join("%s%s:%s" % (o, C.hx(k), C.hx(v)) for o, k, v in ops))
+
+
 def gen_resp(ctx):
     rng = ctx.rng
     # regression corpus: size update after the peer changed SETTINGS_HEADER_TABLE_SIZE; oversized response
-    L = ["resp 0 C0 R200/1/-", "resp 1 R200/1/s%s:%s C0 C4096 R200/1/s%s:%s R204/0/-" % ((C.hx(b"ETag"), C.hx(b"x1")) * 2),
+    L = ["resp 1 R200/1/s%s:%s R200/1/s%s:%s,s%s:%s R200/1/s%s:%s" % (
+             C.hx(b"X-A"), C.hx(b"1"), C.hx(b"X-Big"), C.hx(b"<" * 65504), C.hx(b"X-B"), C.hx(b"2"), C.hx(b"X-B"), C.hx(b"2")),
+         "resp 0 R200/1/s%s:%s,s%s:%s R200/1/s%s:%s" % (
+             C.hx(b"X-Big"), C.hx(b"{" * 65480), C.hx(b"X-B"), C.hx(b"2"), C.hx(b"X-B"), C.hx(b"2")),
+         "resp 0 C0 R200/1/-", "resp 1 R200/1/s%s:%s C0 C4096 R200/1/s%s:%s R204/0/-" % ((C.hx(b"ETag"), C.hx(b"x1")) * 2),
          "resp 0 C100 C50 C300 R404/0/- C4096 R200/1/-", "resp 0 C5000 R200/1/- C4096 I103/0/- C64 T0/1/s%s:%s" % (C.hx(b"X-T"), C.hx(b"1"))]
+    nl_p = 0.0025 if ctx.quick else 0.001           # (each near-limit response is 128 KiB of input)
     for _ in range(2500 if ctx.quick else 30000):
         items = []
         pool = [(rand_case(rng, rng.choice(RESP_NAMES)), rand_resp_value(rng)) for _ in range(rng.choice([2, 5, 12]))]
+        srv = rng.random() < 0.6
         for _ in range(rng.choice([1, 1, 2, 3, 6, 12, 25])):
             r = rng.random()
+            if r < nl_p:
+                items.append(near_limit_response(rng, srv))
+                continue
             if r < 0.06:
                 items.append("C%d" % rng.choice([0, 0, 64, 100, 1000, 4096, 4097, 65536, rng.randint(0, 5000)]))
                 continue
@@ -1143,7 +1249,7 @@ def gen_resp(ctx):
                 ops.append("%s%s:%s" % (rng.choice("sssssiiiaa"), C.hx(k), C.hx(v)))
             st = rng.choice([200, 200, 200, 204, 206, 304, 304, 400, 404, 500, 301, 302, 403, 401, 416, 503, 100, 199, 599, 999])
             items.append("R%d/%d/%s" % (st, rng.random() < 0.5, ",".join(ops) if ops else "-"))
-        L.append("resp %d %s" % (rng.random() < 0.6, " ".join(items)))
+        L.append("resp %d %s" % (srv, " ".join(items)))
     return L
 
 
